@@ -110,6 +110,44 @@ func randBits(c *hlib.Ctx, n int, dims []int) []bool {
 	return bs
 }
 
+// blobBits3 / blobBits2: unions of a few random balls/boxes sampled on the lattice, so that the
+// surface crosses many rows and columns of a large lattice.
+func blobBits3(c *hlib.Ctx, nx, ny, nz int) []bool {
+	bs := make([]bool, nx*ny*nz)
+	for k := 1 + c.Rng.Intn(3); k > 0; k-- {
+		cx, cy, cz := c.Rng.Float64()*float64(nx), c.Rng.Float64()*float64(ny), c.Rng.Float64()*float64(nz)
+		r := 1 + c.Rng.Float64()*float64(nx+ny+nz)/5
+		for z := 0; z < nz; z++ {
+			for y := 0; y < ny; y++ {
+				for x := 0; x < nx; x++ {
+					dx, dy, dz := float64(x)-cx, float64(y)-cy, float64(z)-cz
+					if dx*dx+dy*dy+dz*dz < r*r {
+						bs[x+nx*(y+ny*z)] = true
+					}
+				}
+			}
+		}
+	}
+	return bs
+}
+
+func blobBits2(c *hlib.Ctx, nx, ny int) []bool {
+	bs := make([]bool, nx*ny)
+	for k := 1 + c.Rng.Intn(3); k > 0; k-- {
+		cx, cy := c.Rng.Float64()*float64(nx), c.Rng.Float64()*float64(ny)
+		r := 1 + c.Rng.Float64()*float64(nx+ny)/3
+		for y := 0; y < ny; y++ {
+			for x := 0; x < nx; x++ {
+				dx, dy := float64(x)-cx, float64(y)-cy
+				if dx*dx+dy*dy < r*r {
+					bs[x+nx*y] = true
+				}
+			}
+		}
+	}
+	return bs
+}
+
 func d2(x float64) int { return int(math.Round(2*x + 2)) }
 
 func mcOut(m *model3d.Mesh) string {
@@ -173,6 +211,25 @@ func run(c *hlib.Ctx) {
 				c.Stat("c01.mc.filter_all", 1)
 				return mcOut(model3d.MarchingCubesFilter(s, func(*model3d.Rect) bool { return true }, 1))
 			}
+		}))
+	}
+	// ---- larger lattices through the block-splitting (Filter) variants: odd and even cell counts
+	for i := 0; i < c.N/10+2; i++ {
+		nx, ny, nz := 3+c.Rng.Intn(6), 3+c.Rng.Intn(6), 3+c.Rng.Intn(6)
+		bs := blobBits3(c, nx, ny, nz)
+		s := &latticeSolid{nx, ny, nz, bs}
+		c.Stat("c01.mc.filter_large", 1)
+		c.Emit(fmt.Sprintf("c01 mc %d %d %d %s", nx, ny, nz, bitStr(bs)), hlib.Guard(func() string {
+			return mcOut(model3d.MarchingCubesFilter(s, func(*model3d.Rect) bool { return true }, 1))
+		}))
+	}
+	for i := 0; i < c.N/4+4; i++ {
+		nx, ny := 7+c.Rng.Intn(20), 7+c.Rng.Intn(20)
+		bs := blobBits2(c, nx, ny)
+		s := &latticeSolid2{nx, ny, bs}
+		c.Stat("c01.ms.filter_large", 1)
+		c.Emit(fmt.Sprintf("c01 ms %d %d %s", nx, ny, bitStr(bs)), hlib.Guard(func() string {
+			return msOut(model2d.MarchingSquaresFilter(s, func(*model2d.Rect) bool { return true }, 1))
 		}))
 	}
 	// ---- marching squares
@@ -322,6 +379,23 @@ func runGenerators(c *hlib.Ctx) {
 			p := model3d.NewConvexPolytopeRect(model3d.XYZ(-1, -1, -1), model3d.XYZ(1, 1, 1))
 			for k := c.Rng.Intn(5); k > 0; k-- {
 				p = append(p, &model3d.LinearConstraint{Normal: rdir(), Max: rf(0.3, 1.2)})
+			}
+			return p.Mesh()
+		})
+		soup3(c, "polytope_pyramid", func() *model3d.Mesh {
+			// n-gonal pyramid or bipyramid: more than three planes meet at the apex
+			n := 3 + c.Rng.Intn(8)
+			bip := c.Rng.Intn(2) == 0
+			var p model3d.ConvexPolytope
+			for k := 0; k < n; k++ {
+				th := 2 * math.Pi * float64(k) / float64(n)
+				p = append(p, &model3d.LinearConstraint{Normal: model3d.XYZ(math.Cos(th), math.Sin(th), 1), Max: 1})
+				if bip {
+					p = append(p, &model3d.LinearConstraint{Normal: model3d.XYZ(math.Cos(th), math.Sin(th), -1), Max: 1})
+				}
+			}
+			if !bip {
+				p = append(p, &model3d.LinearConstraint{Normal: model3d.XYZ(0, 0, -1), Max: 0.5})
 			}
 			return p.Mesh()
 		})
